@@ -11,6 +11,7 @@ Driver for the correspondence streams `kins` / `hprol` (property C05).  Requests
   prolto   <spaceC> <spaceF> disp old    -> <matrix>   (disp = -1 for inf; old = 1: pre-6ce171d loop bounds)
   lvlw     <space> <coeffs>              -> list of rat lists
   bdmap    <IA> <dims> axis side         -> nat list
+  bdspace  <IA> <ID> <dims> axis side    -> per level `<active face indices> ; <deactivated face indices>`
 
 <kv>, <rows>, <coeffs> = length-prefixed lists; <matrix> is printed as `m n nnz i,j,v ...`
 (row-major, exact rationals, zeros dropped); <space> = `L` then per level `N <IA> <ID>`, then
@@ -18,6 +19,7 @@ per level `< L-1` a length-prefixed list of per-axis factor matrices, each `m n 
 -/
 import Pyiga.Proto
 import Pyiga.Model.Transfer
+import Pyiga.Model.TransferBoundary
 
 open Pyiga Pyiga.Proto Pyiga.Transfer
 
@@ -94,7 +96,10 @@ def request : P String := do
       pure (" | ".intercalate ((H.levelwiseCoeffs (fun i => arr.getD i 0)).map showRats))
   | "bdmap" => do
       let IA ← list (list nat); let dims ← list (list nat); let axis ← nat; let side ← nat
-      pure (showNats (boundaryMap IA dims axis side))
+      pure (showNats (bdMap IA dims axis side))
+  | "bdspace" => do
+      let IA ← list (list nat); let ID ← list (list nat); let dims ← list (list nat); let axis ← nat; let side ← nat
+      pure (" | ".intercalate ((bdSpaceIndices IA ID dims axis side).map fun (a, d) => showNats a ++ " ; " ++ showNats d))
   | _ => failure
 
 def handle (line : String) : String :=
